@@ -11,6 +11,9 @@ NAMES = ["a", "b", "c", "d", "e", "f", "g", "h", "HEX", "A_UP", "zz"]
 STRS = ["", "x", "ab", "a b", " pad ", "Ab-C", "a/b", "foo.bar", "aaa", "it's"]
 
 
+PATHS = ["a/b.c", "/x/y.tar.gz", "./d/", "..", ".rc", "a//b/../c.", "/", "dir/.hidden.txt", "p/q/", "n.o/file", "a/./b/", "up/../../z.z"]
+
+
 class Gen:
     def __init__(self, rng):
         self.r = rng
@@ -41,7 +44,7 @@ class Gen:
                 return self.bt()
             return Str(r.choice(STRS))
         e = lambda: self.expr(scope, depth + 1)
-        k = r.choice(["concat", "join", "joinr", "and", "or", "cond", "cond", "assert", "group", "u", "u", "uo", "sh", "b", "t", "q"])
+        k = r.choice(["concat", "join", "joinr", "and", "or", "cond", "cond", "assert", "group", "u", "u", "uo", "sh", "b", "t", "q", "p", "pj"])
         if k == "concat":
             return Concat(Group(e()), Group(e()))
         if k == "join":
@@ -66,6 +69,12 @@ class Gen:
             return Call(r.choice(["uppercase", "lowercase", "trim", "trim_start", "trim_end", "capitalize"]), e())
         if k == "q":
             return Call("quote", e())
+        if k == "p":
+            # path functions over path-like literals (they fail on paths without the part asked for: an error both sides)
+            f = r.choice(["clean", "clean", "file_name", "file_stem", "extension", "parent_directory", "without_extension"])
+            return Call(f, Str(r.choice(PATHS)) if r.random() < 0.8 else e())
+        if k == "pj":
+            return Call("join", Str(r.choice(PATHS)), *[Str(r.choice(PATHS + ["x", ""])) for _ in range(r.randint(1, 3))])
         if k == "uo":
             return Call(r.choice(["env"]), Str(r.choice(["EV1", "NOSUCH_VAR"])), e())
         if k == "sh":
@@ -300,6 +309,54 @@ def run(report):
                            {"correspondence": "C04 clean() vs Just.Path.cleanFn", "path": t, "model": m["clean"], "impl": v}, no_input=True)
             break
     report.coverage["clean_paths"] = len(ptexts)
+    # the other path functions on the same texts: where the model has a value, the implementation must have the same one
+    # (evaluated in bulk); where the model has none, the call must fail (a sample, one process each)
+    PFNS = ["file_name", "file_stem", "extension", "parent_directory", "without_extension"]
+
+    def eval_fn_chunk(arg):
+        fn, chunk = arg
+        with C.scratch("c04q") as d:
+            open(os.path.join(d, "justfile"), "w").write("".join("v%d := %s('%s')\n" % (i, fn, t) for i, t in enumerate(chunk)))
+            pe = subprocess.run([C.JUST, "--evaluate"], cwd=d, env=dict(C.BASE_ENV), stdin=subprocess.DEVNULL, stdout=subprocess.PIPE, stderr=subprocess.PIPE)
+            vals = dict(re.findall(r'^(v\d+) +:= "(.*)"$', pe.stdout.decode("utf-8", "replace"), re.M))
+            return [vals.get("v%d" % i) for i in range(len(chunk))], pe.stderr.decode("utf-8", "replace")[-200:]
+
+    n_pf = 0
+    for fn in PFNS:
+        ok_texts = [t for t, m in zip(ptexts, pm) if m[fn] is not None]
+        ok_model = [m[fn] for m in pm if m[fn] is not None]
+        fail_texts = [t for t, m in zip(ptexts, pm) if m[fn] is None]
+        chunks = [ok_texts[i:i + 400] for i in range(0, len(ok_texts), 400)]
+        got = [x for vals_, _ in C.pmap(eval_fn_chunk, [(fn, ch) for ch in chunks]) for x in vals_]
+        for t, v, mv in zip(ok_texts, got, ok_model):
+            n_pf += 1
+            if v != mv:
+                report.failure("c04-model-path:%s" % fn, "%s(%r): Just.Path gives %r, the implementation %r" % (fn, t, mv, v),
+                               {"correspondence": "C04 %s() vs Just.Path" % fn, "path": t, "model": mv, "impl": v,
+                                "justfile": "x := %s('%s')\n" % (fn, t), "argv": ["--evaluate", "x"]}, no_input=True)
+                break
+        sample = fail_texts if tier == "thorough" and len(fail_texts) < 4000 else C.case_rng(report.seed, 0, "c04-pf-" + fn).sample(fail_texts, min(len(fail_texts), 150))
+        for t, (vals_, err) in zip(sample, C.pmap(eval_fn_chunk, [(fn, [t]) for t in sample])):
+            n_pf += 1
+            if vals_[0] is not None or "Call to function" not in err:
+                report.failure("c04-model-path:%s" % fn, "%s(%r): Just.Path has no value, the implementation gives %r" % (fn, t, vals_[0]),
+                               {"correspondence": "C04 %s() vs Just.Path" % fn, "path": t, "model": None, "impl": vals_[0]}, no_input=True)
+                break
+    # join: PathBuf::push left to right
+    jtexts = [t for t in ptexts if len(t) <= 3]
+    jcases = [(a, b) for a in jtexts for b in jtexts][: (1500 if tier == "quick" else 10000)] + [(a, b, c) for a in jtexts[:10] for b in jtexts[:10] for c in jtexts[:10]]
+    jm = drv.pbatch([{"op": "clean", "p": "|".join(c)} for c in jcases], chunk=5000)
+    with C.scratch("c04j") as d:
+        open(os.path.join(d, "justfile"), "w").write("".join("v%d := join(%s)\n" % (i, ", ".join("'%s'" % x for x in c)) for i, c in enumerate(jcases)))
+        pe = subprocess.run([C.JUST, "--evaluate"], cwd=d, env=dict(C.BASE_ENV), stdin=subprocess.DEVNULL, stdout=subprocess.PIPE, stderr=subprocess.PIPE)
+        jvals = dict(re.findall(r'^(v\d+) +:= "(.*)"$', pe.stdout.decode("utf-8", "replace"), re.M))
+    for i, (c, m) in enumerate(zip(jcases, jm)):
+        n_pf += 1
+        if jvals.get("v%d" % i) != m["join"]:
+            report.failure("c04-model-path:join", "join%r: Just.Path gives %r, the implementation %r" % (c, m["join"], jvals.get("v%d" % i)),
+                           {"correspondence": "C04 join() vs Just.Path.joinPaths", "operands": list(c), "model": m["join"], "impl": jvals.get("v%d" % i)}, no_input=True)
+            break
+    report.coverage["path_function_calls"] = n_pf
     # the same programs written in a second textual order: values must not depend on it
     cases2 = []
     for (assigns, overrides, text_order, plan, use_set) in cases[: n // 4]:
